@@ -80,7 +80,8 @@ type loopCut struct {
 }
 
 type Frame struct {
-	curBlock    *ssa.BasicBlock // block being executed (scope of name resolution for body-level clauses)
+	loopAc      map[*ssa.BasicBlock]*Term // loop header -> allocation counter at the head of the iteration being executed
+	curBlock    *ssa.BasicBlock           // block being executed (scope of name resolution for body-level clauses)
 	c           *FnCtx
 	fn          *ssa.Function
 	vals        map[ssa.Value]*Val
